@@ -75,7 +75,7 @@ ASSUMPTIONS = [
 BOUNDS = {
     "quick": {
         "a": "depth 1-2 complete over 129 node shapes x 5 positions; 4 filter-call argument kinds at depth 1",
-        "b": "blocks <=2 statements depth <=2 over 11 of the 14 statement kinds (90 skeletons); 16 of the 26 literal forms in every single hole; 27 layouts: 15 margins "
+        "b": "blocks <=2 statements depth <=2 over 11 of the 15 statement kinds; 17 of the 26 literal forms in every single hole; 27 layouts: 15 margins "
              "(LF, code on the next line, <% %> in the body) + 2 margins x 3 other positions + 6 first-line/CRLF/TAB-unit variants",
         "c": "31 expression binders x 20 positions, 41 statement binders x 4 positions, 10 control-line binders; inside and outside reads; every free name removed",
     },
@@ -753,11 +753,11 @@ def layouts(tier, level):
 # literal forms left to the thorough tier (each has a close relative in the quick set)
 QUICK_SKIP = {
     "dq-in-sq", "raw-string-backslash", "escaped-quote", "two-triples-one-line", "empty-triple", "four-quotes",
-    "multiline-triple-sq", "multiline-triple-with-hash", "comment-with-triple-dq", "triple-sq-chars-in-dq-string",
+    "multiline-triple-with-hash", "comment-with-triple-dq", "triple-sq-chars-in-dq-string",
 }
 
 
-QUICK_SKIP_KINDS = {"call0", "tryraise", "if"}
+QUICK_SKIP_KINDS = {"call0", "tryraise", "if", "import"}
 
 
 def form_assignments(nholes, mode, tier="thorough"):
@@ -879,7 +879,8 @@ def c_native(case, removed):
         before = set(G)
         if case["mod"]:
             exec(compile(case["mod"], "<c19-mod>", "exec"), G)
-        new = {k: v for k, v in G.items() if k not in before}
+        # what the body sees as module globals: the names the harness declares there + the names the module code bound
+        new = {k: v for k, v in G.items() if k not in before or k in case["mod_names"]}
         BG = c_env(list(case["ctx_names"]) + list(ALWAYS), removed)
         BG.update(new)
         BG["__builtins__"] = builtins
@@ -896,13 +897,15 @@ def c_native(case, removed):
 def c_mako(case, removed):
     ctx = c_env(list(case["ctx_names"]) + list(ALWAYS), removed)
     mod = c_env(list(case["mod_names"]) + ["N19"], removed)
-    stage, val, t = mako_run(case["template"], ctx, mod, strict=True)
+    declared = sorted(mod)  # module-level names are *declared* by an import line, as a template author has to
+    imports = ["from mc import c19_env as __e19", "%s, = [__e19.MOD[__k19] for __k19 in %r]" % (", ".join(declared), declared)]
+    stage, val, t = mako_run(case["template"], ctx, mod, strict=True, imports=imports)
     if stage == "ok":
         return ("out", _OBS.findall(val))
     return ("exc", exc_class(val), _QNAME.findall(str(val)), isinstance(val, NameError), str(val)[:200], classify_exc(val))
 
 
-REEMIT_POS = ("def-default-top", "def-default-nested", "filter-arg", "block-filter")
+REEMIT_POS = ("def-default-top", "def-default-nested", "def-kwdefault-nested", "filter-arg", "block-filter")
 
 
 def c_judge(case, removed, bound, free, pos=""):
@@ -959,6 +962,9 @@ WRAPPERS = [
     ("~in-comp-if", "[1 for i9 in (1,) if N19(%s)]"), ("~in-nested-lambda", "(lambda: (lambda: %s)())()"),
     ("~in-dictcomp-value", "{1: %s for i9 in (1,)}[1]"), ("~in-genexp", "list(%s for i9 in (1,))[0]"),
 ]
+# codegen declares context lookups and inline defs in set order: several spellings of the free name and of the def
+# make the outcome independent of PYTHONHASHSEED
+HASH_ORDER_FREE_NAMES = ["zz", "y9", "k2", "value", "items"]
 E_LEAKS = {"walrus.same-expression": "w", "walrus.in-comp": "w"}
 S_LEAKS = {
     "except-as": "e", "with-as": "w", "with-as-tuple": "b", "for.tuple-target": "b", "for.starred-target": "b", "for.else": "a",
@@ -972,9 +978,10 @@ def c_cases(tier):
     """yield dict(core, outside, pos, canon, case, bound, free, E)"""
     wrappers = [("", "%s")] + (WRAPPERS if tier == "thorough" else [])
     # baseline: a plain free name in every position
-    for label, E0, free, bound in [("plain-name", "z", ["z"], [])] + BI.EXPRS:
+    plain = [("plain-name", "z", ["z"], [])] + [("plain-name:" + n, n, [n], []) for n in HASH_ORDER_FREE_NAMES]
+    for label, E0, free, bound in plain + BI.EXPRS:
         for wl, wr in wrappers:
-            if wl and label == "plain-name":
+            if wl and label.startswith("plain-name"):
                 continue
             E = wr % E0
             outs = [(None, None)]
@@ -985,6 +992,8 @@ def c_cases(tier):
                     outs.append(("leaked", E_LEAKS[label]))
             for okind, oname in outs:
                 for pos in BI.EXPR_POSITIONS:
+                    if label.startswith("plain-name:") and not pos.startswith("def-default-nested"):
+                        continue
                     case = BI.expr_case(label, E, free, bound, pos, oname)
                     if case is None:
                         continue
@@ -1126,7 +1135,7 @@ def read_location(code, name):
 
 
 POS_FAMILY = {"filter-arg": "filter-arguments", "block-filter": "filter-arguments", "def-default-top": "def-default",
-              "def-default-nested": "def-default"}
+              "def-default-nested": "def-default", "def-kwdefault-nested": "def-keyword-only-default"}
 
 
 def c_feature(c, sym, detail):
@@ -1157,6 +1166,8 @@ def c_sig(c, res, index):
             if r[0] != "context-name-fetched-after-def":
                 return c_sig(rel, r, index)
     feat = c_feature(c, sym, detail)
+    if pos == "def-kwdefault-nested" and sym == "free-name-not-obtained":
+        return "bind:free-name-not-obtained:read-in-keyword-only-default-of-a-mako-def"
     where = ""
     if pos != c["canon"] and sym != "name-bound-in-inner-scope-not-obtained":
         pf = pos.split(":")[0]
